@@ -285,6 +285,111 @@ def relation_tests(g, kind, lp, rp):
     return out
 
 
+def path_tests(g, node, skip_labels=('exc',)):
+    """[(test expression, outcome)] of every test the node is control-dependent on (not split into atoms)"""
+    out = []
+    for t in g.nodes:
+        if t.kind != 'test' or t.ast is None:
+            continue
+        for lab in ('true', 'false'):
+            if node in guard_region(g, t, lab, skip_labels=skip_labels):
+                out.append((t.ast, lab == 'true'))
+    return out
+
+
+def _prop_eval(e, val):
+    """truth value of a test expression under an assignment of its atoms (val: atom text -> bool, filled on demand)"""
+    if isinstance(e, ast.UnaryOp) and isinstance(e.op, ast.Not):
+        return not _prop_eval(e.operand, val)
+    if isinstance(e, ast.BoolOp):
+        rs = [_prop_eval(v, val) for v in e.values]
+        return all(rs) if isinstance(e.op, ast.And) else any(rs)
+    cp = compare_parts(e)
+    if cp and isinstance(cp[1], (ast.Eq, ast.NotEq)):
+        for a, b in ((cp[0], cp[2]), (cp[2], cp[0])):
+            if isinstance(b, ast.Constant) and b.value in (b'', ''):           # x == b''  <=>  not x
+                r = not val(norm(a))
+                return r if isinstance(cp[1], ast.Eq) else not r
+            if isinstance(b, ast.Constant) and b.value == 0 and isinstance(a, ast.Call) and dotted(a.func) == 'len' and a.args:
+                r = not val(norm(a.args[0]))
+                return r if isinstance(cp[1], ast.Eq) else not r
+    k, v = atom_key(e, True)
+    return val(k) == v
+
+
+def entails_empty(tests, var):
+    """do the path tests (list of (expr, outcome)) force `var` to be falsy?  Propositional: every distinct atom is an
+    independent boolean (x == b'' and len(x) == 0 are read as `not x`); brute force, at most 2^12 assignments."""
+    atoms = []
+
+    def collect(name):
+        if name not in atoms:
+            atoms.append(name)
+        return True
+    for e, o in tests:
+        _prop_eval(e, collect)
+    collect(var)
+    if len(atoms) > 12:
+        return False
+    for bits in range(1 << len(atoms)):
+        asg = dict((a, bool(bits >> i & 1)) for i, a in enumerate(atoms))
+        if not asg[var]:
+            continue
+        if all(_prop_eval(e, lambda n_: asg.get(n_, False)) == o for e, o in tests):
+            return False          # a satisfying assignment with var truthy exists
+    return True
+
+
+def paths_entail_empty(g, node, var, limit=4000, skip_labels=('exc',)):
+    """on EVERY simple path from the entry to *node* the tests passed on the way (minus those whose variables were
+    reassigned afterwards) force `var` to be falsy -- or contradict each other (the path cannot be taken).
+    False when in doubt (too many paths)."""
+    from .astx import assigned_names
+    count = [0]
+    # backward reachability to prune
+    can = set([node])
+    stack = [node]
+    while stack:
+        x = stack.pop()
+        for p, l in x.pred:
+            if l in skip_labels or p in can:
+                continue
+            can.add(p)
+            stack.append(p)
+    if g.entry not in can:
+        return False          # not reachable along the edges considered: nothing can be concluded
+
+    def names_in(e):
+        return set(norm(x) for x in ast.walk(e) if isinstance(x, (ast.Name, ast.Attribute)))
+
+    def walk(n, onpath, tests):
+        if count[0] > limit:
+            return False
+        if n is node:
+            count[0] += 1
+            return entails_empty(tests, var)
+        for s, l in n.succ:
+            if l in skip_labels or s not in can or s in onpath:
+                continue
+            t2 = tests
+            if n.kind == 'test' and n.ast is not None and l in ('true', 'false'):
+                t2 = tests + [(n.ast, l == 'true')]
+            elif n.kind in ('stmt', 'for', 'with') and n.ast is not None:
+                try:
+                    killed = set(assigned_names(n.ast))
+                except Exception:
+                    killed = set()
+                if isinstance(n.ast, (ast.Assign, ast.AugAssign)):
+                    for tg in (n.ast.targets if isinstance(n.ast, ast.Assign) else [n.ast.target]):
+                        killed.add(norm(tg))
+                if killed:
+                    t2 = [(e, o) for e, o in tests if not (names_in(e) & killed)]
+            if not walk(s, onpath | {s}, t2):
+                return False
+        return True
+    return walk(g.entry, {g.entry}, [])
+
+
 def other(label):
     return 'false' if label == 'true' else 'true'
 
